@@ -5,6 +5,12 @@ use std::collections::{HashMap, HashSet};
 #[derive(Debug)]
 pub struct NameMap {
     names: HashMap<NameSymbol, NameString>,
+
+    /// Replacement names for struct members with reserved names
+    member_names: HashMap<(StructId, u32), String>,
+
+    /// Replacement names for enum values with reserved names
+    enum_value_names: HashMap<EnumValueId, String>,
 }
 
 /// Any kind of named symbol
@@ -36,6 +42,8 @@ impl NameMap {
     ) -> NameMap {
         let mut name_map = NameMap {
             names: HashMap::new(),
+            member_names: HashMap::new(),
+            enum_value_names: HashMap::new(),
         };
 
         let mut scopes: HashMap<Option<NamespaceId>, HashMap<String, Vec<NameSymbol>>> =
@@ -239,7 +247,84 @@ impl NameMap {
             }
         }
 
+        // Members keep their names unless the name is reserved
+        // The replacement has to be unique within the struct or enum
+        fn pick_member_name(
+            name: &str,
+            siblings: &HashSet<&str>,
+            reserved_name_set: &HashSet<String>,
+        ) -> Option<String> {
+            if !reserved_name_set.contains(name) {
+                return None;
+            }
+
+            let mut counter = 0;
+            loop {
+                let candidate = format!("{}_{}", name, counter);
+
+                if !reserved_name_set.contains(&candidate) && !siblings.contains(candidate.as_str())
+                {
+                    break Some(candidate);
+                }
+
+                counter += 1;
+            }
+        }
+
+        for def in &module.struct_registry {
+            let mut siblings = HashSet::new();
+            for member in &def.members {
+                siblings.insert(member.name.as_str());
+            }
+            for method in &def.methods {
+                siblings.insert(module.function_registry.get_function_name(*method));
+            }
+
+            for (index, member) in def.members.iter().enumerate() {
+                if let Some(name) = pick_member_name(&member.name, &siblings, &reserved_name_set) {
+                    name_map.member_names.insert((def.id, index as u32), name);
+                }
+            }
+        }
+
+        for i in 0..module.enum_registry.get_enum_count() {
+            let values = module.enum_registry.get_values(EnumId(i));
+
+            let mut siblings = HashSet::new();
+            for value_id in values {
+                siblings.insert(module.enum_registry.get_enum_value(*value_id).name.as_str());
+            }
+
+            for value_id in values {
+                let name = &module.enum_registry.get_enum_value(*value_id).name;
+                if let Some(name) = pick_member_name(name, &siblings, &reserved_name_set) {
+                    name_map.enum_value_names.insert(*value_id, name);
+                }
+            }
+        }
+
         name_map
+    }
+
+    /// Get the name for a member of a struct
+    pub fn get_struct_member_name<'s>(
+        &'s self,
+        module: &'s Module,
+        id: StructId,
+        member_index: u32,
+    ) -> &'s str {
+        match self.member_names.get(&(id, member_index)) {
+            Some(name) => name,
+            None => &module.struct_registry[id.0 as usize].members[member_index as usize].name,
+        }
+    }
+
+    /// Get the name for an enum value
+    pub fn get_enum_value_name<'s>(&'s self, module: &'s Module, id: EnumValueId) -> &'s str {
+        match self.enum_value_names.get(&id) {
+            Some(name) => name,
+            None => &module.enum_registry.get_enum_value(id).name,
+        }
     }
 
     /// Get the leaf name for a given symbol
